@@ -23,6 +23,17 @@ CHECKS = {
             "Saml2Client and compares accept/reject with an independent truth table in both directions; the driver's "
             "event log must show a genuine successful verification for every signature present in an accepted cell.",
             TRUST, "3/C02"),
+    "C18": ("exploration", "reference-model monitor over operation histories (bounded-exhaustive + random), invariants after every step",
+            "Replays every operation history up to a bounded depth over 2 users x 2 SPs (abstract-state pruned), long random histories on "
+            "dict- and shelve-backed IdentDB, hostile field contents and the adversarial user-id class against a dictionary model; after each "
+            "step every live identifier must resolve to its user only, withdrawn ones to nobody, persistent identifiers must be stable and "
+            "distinct, and code/decode must be reversible and collision-free.",
+            PURE, "3/C18"),
+    "C19": ("exploration", "reference-model monitor under a virtual clock, memory and file cache in lock step",
+            "Replays every operation sequence up to a bounded depth (set with past/future expiry, reset, delete, clock advance) and long random "
+            "histories (hostile attribute values, subjects differing in one field, file reopen) on Cache and Population, memory and file backed, "
+            "comparing every query result and exception class with a dictionary model after each step.",
+            PURE, "3/C19"),
 }
 
 NOT_YET = {}
